@@ -121,8 +121,10 @@ def audit(prop):
         return [], [], {}
     os.makedirs(os.path.join(LEAN, '.lake'), exist_ok=True)
     path = os.path.join(LEAN, '.lake', f'audit_{prop}_{os.getpid()}.lean')
+    src = open(os.path.join(LEAN, 'PjVerif', 'Props', f'{prop}.lean')).read()
+    nss = re.findall(r'^namespace\s+([A-Za-z0-9_\.]+)', src, flags=re.M)
     with open(path, 'w') as f:
-        f.write(f'import PjVerif.Props.{prop}\nopen Pj\n')
+        f.write(f'import PjVerif.Props.{prop}\nopen Pj\n' + ''.join(f'open {n}\n' for n in nss))
         for n in names:
             f.write(f'#print axioms {n}\n')
     try:
